@@ -411,7 +411,7 @@ def dtype_args_are_types(term):
     """under the `dtype` pre-processor the spec language reads every argument as a type
     name; leaves with other arguments there are only reachable through the Python DSL"""
     def ok(a):
-        if M.is_typeref(a):
+        if M.is_typeref(a) or M.is_pathref(a):  # (a data path argument is looked up, not read as a type name)
             return True
         # (a None item of a membership list stays None under the type pre-processor: "a str or nothing")
         return (term.get("fn") in ("in_", "not_in", "in") and type(a) is list
